@@ -1994,7 +1994,12 @@ func isCanTransient(t reflect.Type, inclStrSlice bool) (v bool) {
 	if inclStrSlice {
 		bset = &numBoolStrSliceBitset
 	}
-	if bset.isset(byte(k)) {
+	if k == reflect.Slice {
+		// only a slice of numbers or bools: its elements are decoded directly into its own memory.
+		// Decoding the elements of any other slice can recurse into containers which
+		// use the same (per-decoder) transient scratch values, overwriting this one.
+		v = inclStrSlice && numBoolBitset.isset(byte(t.Elem().Kind()))
+	} else if bset.isset(byte(k)) {
 		v = true
 	} else if k == reflect.Array {
 		v = isCanTransient(t.Elem(), false)
